@@ -160,7 +160,12 @@ func (fs *ReaderFS) readErr(r io.Reader) error {
 	case err := <-errs:
 		return err
 	case <-done:
-		return nil
+		select {
+		case err := <-errs: // a background failure that arrived together with completion must not be lost
+			return err
+		default:
+			return nil
+		}
 	}
 }
 
